@@ -362,8 +362,22 @@ func TestVF_C07_Wiring(t *testing.T) {
 		}
 		return
 	}
+	// the largest shard spaces two supported counts can span (LCM far beyond 2^24, where per-stream bookkeeping stops
+	// tracking): still the LCM, still mapped with the serving side's count
+	if sh, _ := vfshared.Shard(); sh == 0 {
+		for _, pr := range [][2]int32{{16384, 15000}, {8192, 4099}, {16384, 16383}, {15000, 16384}} {
+			lcm := int32(c07BigLCM(pr[0], pr[1]).Int64())
+			for _, shard := range []int32{lcm, 1<<24 + 1} {
+				c := c07wCase{L: pr[0], R: pr[1], Shard: shard}
+				if err := c07wRun(c); err != nil {
+					c07Fail(t, st, part, c, err)
+				}
+				st.Case(vfshared.Fingerprint(c), true, "lcm_beyond_2^24")
+			}
+		}
+	}
 	rapid.Check(t, func(rt *rapid.T) {
-		c := c07wCase{L: rapid.SampledFrom([]int32{1, 2, 3, 4, 6, 8, 9, 12, 16, 512, 1024}).Draw(rt, "l"), R: rapid.SampledFrom([]int32{1, 2, 3, 4, 5, 6, 10, 12, 27, 1024, 1000}).Draw(rt, "r"),
+		c := c07wCase{L: rapid.SampledFrom([]int32{1, 2, 3, 4, 6, 8, 9, 12, 16, 512, 1024, 8192, 16384}).Draw(rt, "l"), R: rapid.SampledFrom([]int32{1, 2, 3, 4, 5, 6, 10, 12, 27, 1024, 1000, 4099, 15000, 16383}).Draw(rt, "r"),
 			Shard: rapid.Int32Range(1, 1<<20).Draw(rt, "shard")}
 		if rapid.Bool().Draw(rt, "boundaryShard") {
 			// ends of the LCM range, the two counts, and the sizes at which per-stream bookkeeping arrays grow
